@@ -27,20 +27,7 @@ theorem pushColumn_injective (m n : Nat) (h : pushColumn m = pushColumn n) : m =
   simpa [col_letters] using this
 
 /-- the loop of `push_column` computes the textbook spreadsheet column name -/
-theorem pushColumn_eq_colName (n : Nat) : pushColumn n = colName n := by
-  induction n using Nat.strongRecOn with
-  | _ n ih =>
-    unfold pushColumn
-    rw [colLettersRev_succ, colName]
-    by_cases h : n < 26
-    · have : n / 26 = 0 := by omega
-      have h2 : n % 26 = n := by omega
-      simp [h, this, h2, colLettersRev]
-    · have h1 : n / 26 = (n / 26 - 1) + 1 := by omega
-      have := ih (n / 26 - 1) (by omega)
-      unfold pushColumn at this
-      rw [← h1] at this
-      simp [h, this]
+theorem pushColumn_eq_colName (n : Nat) : pushColumn n = colName n := Ptg.pushColumn_eq_colName n
 
 /-- closed form, one letter: A..Z -/
 theorem pushColumn_one (n : Nat) (h : n < 26) : pushColumn n = [Char.ofNat (65 + n)] := by
